@@ -9,7 +9,7 @@ PID = "C10"
 ANCHORS = ["pyoma2.functions.gen:SC_apply", "pyoma2.functions.gen:MAC", "pyoma2.algorithms.ssi:SSIdat.run", "pyoma2.algorithms.ssi:SSIdat_MS.run",
            "pyoma2.algorithms.plscf:pLSCF.run", "pyoma2.algorithms.plscf:pLSCF_MS.run"]
 REQUIRED_MONITORS = ["labels@SC_apply(function)", "labels@SC_apply(inside SSIcov.run)", "labels@SC_apply(inside SSIdat.run)", "labels@SC_apply(inside pLSCF.run)",
-                     "labels@SC_apply(inside SSIcov_MS.run)", "labels@SC_apply(inside pLSCF_MS.run)", "purity@SC_apply", "result.Lab==labels of final tables"]
+                     "labels@SC_apply(inside SSIcov_MS.run)", "labels@SC_apply(inside pLSCF_MS.run)", "purity@SC_apply", "result.Lab==labels of final tables", "labels kept after a later call"]
 ALL_STATES = ["stable", "fails fn only", "fails xi only", "fails MAC only", "fails several", "prev column empty", "NaN pole", "below ordmin", "first column",
               "above ordmax", "nearest neighbour is not the same row"]
 REQUIRED_STATES = ["tolerances given as Decimal / Fraction / numpy numbers", "mode shapes with an exact zero in the first channel", "a tolerance of exactly zero through the classes", "tolerance dictionary in another key order", "ordmin = ordmax", "tolerances 1e-6..1e-7 on small damping / frequency", "run with covariance criterion", "stable", "fails fn only", "fails xi only", "fails MAC only", "prev column empty", "NaN pole", "below ordmin", "first column",
@@ -223,6 +223,14 @@ def run_tables(ctx, rng, structured, case):
     ctx.ev("purity@SC_apply")
     L2 = G_.SC_apply(copies[0].copy(), copies[1].copy(), copies[2].copy(), ordmin, ordmax, step, efn, exi, ephi)
     ctx.check(np.array_equal(L, L2), "labels:not_pure", "SC_apply returns different labels for equal inputs")
+    # the labels handed out belong to the caller: a later call on ANOTHER table of the same shape (the next algorithm of the setup, the same
+    # algorithm with other tolerances) leaves them alone
+    L_keep = np.array(L, copy=True)
+    other_Fn = np.where(np.isfinite(Fn), Fn[::-1] * 1.07, np.nan) if Fn.shape[0] > 1 else Fn * 1.5
+    L_other = G_.SC_apply(np.nan_to_num(other_Fn, nan=np.nan), copies[1].copy(), copies[2].copy(), ordmin, ordmax, step, efn * 3, exi, ephi)
+    ctx.ev("labels kept after a later call")
+    ctx.check(np.array_equal(L, L_keep), "labels:earlier_result_changed_by_a_later_call",
+              lambda: f"the label table returned by SC_apply changed ({int((np.asarray(L) != L_keep).sum())} entries) when SC_apply was called on another table of the same shape")
     same = all(np.array_equal(a, b, equal_nan=True) for a, b in zip((Fn, Xi, Phi), copies))
     ctx.check(same, "labels:inputs_modified", "SC_apply modified the pole tables it was given")
     ctx.sample({"entry": "gen.SC_apply", "table": list(Fn.shape), "ordmin": ordmin, "ordmax": ordmax, "step": step, "tol": [efn, exi, ephi],
